@@ -1096,41 +1096,354 @@ def check_validators(cx, iid="C03.V"):
 # C03.I parser length guards (tier 1 fallback)
 
 
+PARSERS = ["<frame::Frame as frame::serial::Serialize>::read", "frame::serial::read_handshake_syn_payload", "frame::serial::read_handshake_syn_ack_payload",
+           "frame::serial::read_handshake_ack_payload", "frame::serial::read_handshake_error_payload", "frame::serial::read_disconnect_payload",
+           "frame::serial::read_disconnect_ack_payload", "frame::serial::read_sync_payload", "frame::serial::read_data_payload", "frame::serial::read_ack_payload",
+           "frame::serial::read_datagram", "frame::serial::read_frame_ack"]
+
+
+def _cval(R, s):
+    s = s.strip()
+    if re.fullmatch(r"\d+", s):
+        return int(s)
+    if re.fullmatch(r"[A-Za-z_:]+", s):
+        try:
+            return R.const_int(s)
+        except Exception:
+            return None
+    return None
+
+
+def _len_bounds(R, alt, base):
+    """(lower bound, set of expression strings known <= len) for `[T]::len(base)` under fact-set alt"""
+    L = re.escape("[T]::len(%s)" % base)
+    lb = 0
+    known = set()
+    for lit in alt:
+        m = re.fullmatch(r"eq\(%s,(.*)\)" % L, lit) or re.fullmatch(r"eq\((.*),%s\)" % L, lit)
+        if m:
+            v = _cval(R, m.group(1))
+            if v is not None:
+                lb = max(lb, v)
+        m = re.fullmatch(r"le\((.*),%s\)" % L, lit)
+        if m:
+            v = _cval(R, m.group(1))
+            if v is not None:
+                lb = max(lb, v)
+            else:
+                known.add(m.group(1))
+                # e = x + C <= len with x unsigned  =>  len >= C
+                from mirlib import _split2
+                if m.group(1).startswith("add(") and m.group(1).endswith(")"):
+                    try:
+                        a1, a2 = _split2(m.group(1)[4:-1])
+                        for side in (a1, a2):
+                            c = _cval(R, side)
+                            if c is not None:
+                                lb = max(lb, c)
+                    except ValueError:
+                        pass
+        m = re.fullmatch(r"lt\((.*),%s\)" % L, lit)
+        if m:
+            v = _cval(R, m.group(1))
+            if v is not None:
+                lb = max(lb, v + 1)
+        m = re.fullmatch(r"ne\(0,%s\)" % L, lit)
+        if m:
+            lb = max(lb, 1)
+    return lb, known
+
+
 def check_parser(cx, iid="C03.I"):
+    """parser index proof: every bounds assertion and every slice-range call of the frame readers is
+    discharged from the length facts established on all paths, by constant arithmetic, with one
+    interprocedural summary (element readers return a size <= the slice they were given)."""
     R = cx.R
-    with cx.instance(iid, "T1 GUARD + T9", "every frame reader tests the slice length before its first indexing; Frame::read refuses inputs shorter than header+CRC", floor=12) as inst:
-        fr = R.body("<frame::Frame as frame::serial::Serialize>::read")
-        hdr = R.const_int("frame::serial::FRAME_HEADER_SIZE")
-        crc = R.const_int("frame::serial::FRAME_CRC_SIZE")
-        # first bounds assert / slice index in Frame::read requires len >= hdr+crc
-        fa = cx.fa(fr)
-        sinks = []
-        for bb in sorted(fr.reachable):
-            t = fr.term(bb)
-            if t["k"] == "assert" and t["msg"] == "BoundsCheck":
-                sinks.append((Loc(bb, len(fr.stmts(bb))), "index " + show(fr.operand_expr(t["index"]))))
-        sinks += call_sites(fr, "re:index$")
-        minlen = hdr + crc
-        cx.guard(inst, fr, sinks, [[r"le\((frame::serial::FRAME_OVERHEAD|%d),\[T\]::len\(arg1\)\)" % minlen], [r"lt\(%d,\[T\]::len\(arg1\)\)" % (minlen - 1)]],
-                 construct="indexing in Frame::read", why="reading the type byte / CRC of a too-short datagram")
-        if R.const_int("frame::serial::FRAME_OVERHEAD") != minlen:
-            inst.violation(fr.path, "FRAME_OVERHEAD", "FRAME_OVERHEAD != FRAME_HEADER_SIZE + FRAME_CRC_SIZE")
-        for name in ("read_handshake_syn_payload", "read_handshake_syn_ack_payload", "read_handshake_ack_payload", "read_handshake_error_payload",
-                     "read_disconnect_payload", "read_disconnect_ack_payload", "read_sync_payload", "read_data_payload", "read_ack_payload",
-                     "read_datagram", "read_frame_ack"):
-            b = R.body("frame::serial::" + name)
-            idx = []
+    nobl = 0
+    with cx.instance(iid, "T1 GUARD + T9 (index proof)", "every index and slice range in the frame readers is within the input's length on every path", floor=110) as inst:
+        if R.const_int("frame::serial::FRAME_OVERHEAD") != R.const_int("frame::serial::FRAME_HEADER_SIZE") + R.const_int("frame::serial::FRAME_CRC_SIZE"):
+            inst.violation("frame::serial::FRAME_OVERHEAD", "FRAME_OVERHEAD", "FRAME_OVERHEAD != FRAME_HEADER_SIZE + FRAME_CRC_SIZE")
+        # summaries: element readers return Some((_, size)) only with size <= len(arg1)
+        summary = {}
+        for fn in ("frame::serial::read_datagram", "frame::serial::read_frame_ack"):
+            b = R.body(fn)
+            fa = cx.fa(b)
+            ok = True
+            n = 0
+            for loc, kind, node in b.defs.get(0, []):
+                if kind != "assign" or node["rv"]["k"] != "agg" or node["rv"].get("variant") != "Some":
+                    continue
+                e = b.rvalue_expr(node["rv"])
+                tup = e[2][0]
+                if tup[0] != "agg" or len(tup[2]) != 2:
+                    ok = False
+                    continue
+                size = show(tup[2][1])
+                n += 1
+                for alt in (fa.at(loc) or []):
+                    lb, known = _len_bounds(R, alt, "arg1")
+                    v = _cval(R, size)
+                    if not (size in known or (v is not None and v <= lb)):
+                        ok = False
+                        inst.violation(b.path, "returned size", "%s can return a consumed size `%s` that was not tested against the slice length" % (fn.split("::")[-1], size), at=b.span_at(loc))
+            summary[fn.split("::")[-1]] = ok and n > 0
+            inst.site(b, None, "summary: %s returns size <= len(input): %s (%d return sites)" % (fn.split("::")[-1], summary[fn.split("::")[-1]], n))
+        for fn in PARSERS:
+            b = R.body(fn)
+            fa = cx.fa(b)
             for bb in sorted(b.reachable):
                 t = b.term(bb)
+                loc = Loc(bb, len(b.stmts(bb)))
+                obl = None
                 if t["k"] == "assert" and t["msg"] == "BoundsCheck":
-                    idx.append((Loc(bb, len(b.stmts(bb))), "index " + show(b.operand_expr(t["index"]))[:40]))
-            idx += call_sites(b, "re:::index$")
-            if not idx:
-                inst.site(b, None, "no indexing")
+                    le_ = b.operand_expr(t["len"])
+                    base = show(le_[2]) if le_[0] == "un" and le_[1].lower() == "ptrmetadata" else None
+                    if base is None:
+                        m = re.fullmatch(r"ptrmetadata\((.*)\)", show(le_))
+                        base = m.group(1) if m else None
+                    if base is None:
+                        continue  # fixed-size array (writer-side literal), not an input slice
+                    obl = ("idx", base, show(b.operand_expr(t["index"])))
+                elif t["k"] == "call" and t.get("fn") and re.search(r"::index(_mut)?$", R.short(t["fn"])) and len(t["args"]) == 2:
+                    rng = b.operand_expr(t["args"][1])
+                    if rng[0] == "agg" and rng[1].startswith("Range"):
+                        obl = ("slice", show(b.operand_expr(t["args"][0])), rng)
+                if obl is None:
+                    continue
+                nobl += 1
+                alts = fa.at(loc) or []
+                good = True
+                why = ""
+                for alt in alts:
+                    lb, known = _len_bounds(R, alt, obl[1])
+                    Ls = "[T]::len(%s)" % obl[1]
+                    if obl[0] == "idx":
+                        ix = obl[2]
+                        v = _cval(R, ix)
+                        m = re.fullmatch(r"sub\(%s,(\d+)\)" % re.escape(Ls), ix)
+                        if v is not None:
+                            if not v < lb:
+                                good, why = False, "index %d needs length > %d, only length >= %d is established" % (v, v, lb)
+                        elif m:
+                            c = int(m.group(1))
+                            if not (c >= 1 and lb >= c):
+                                good, why = False, "index len-%d needs length >= %d, only >= %d is established" % (c, c, lb)
+                        else:
+                            good, why = False, "index expression `%s` is not covered by the constant-arithmetic prover" % ix[:60]
+                    else:
+                        rng = obl[2]
+                        parts = [show(x) for x in rng[2]]
+                        if rng[1].startswith("RangeFrom") or (rng[1] == "RangeFrom"):
+                            a = parts[0]
+                            va = _cval(R, a)
+                            ms = re.fullmatch(r"serial::(read_datagram|read_frame_ack)\((.*)\)@Some\.0\.1", a)
+                            if va is not None:
+                                if not va <= lb:
+                                    good, why = False, "slice [%d..] needs length >= %d, only >= %d is established" % (va, va, lb)
+                            elif ms:
+                                if ms.group(2) != obl[1] or not summary.get(ms.group(1)):
+                                    good, why = False, "slice [size..] where size comes from %s on a different slice or without the size<=len summary" % ms.group(1)
+                            else:
+                                good, why = False, "slice start `%s` not covered" % a[:60]
+                        elif len(parts) == 2:
+                            a, e2 = parts
+                            va = _cval(R, a)
+                            m = re.fullmatch(r"sub\(%s,(\d+)\)" % re.escape(Ls), e2)
+                            if va is not None and m:
+                                c = int(m.group(1))
+                                if not lb >= va + c:
+                                    good, why = False, "slice [%d..len-%d] needs length >= %d, only >= %d is established" % (va, c, va + c, lb)
+                            elif va is not None and e2 in known:
+                                # start <= end: end = start + X with X unsigned
+                                if not re.search(r"add\(.*%s.*\)" % re.escape(a), e2) and not re.search(r"add\(.*,(frame::serial::)?%s\)" % re.escape(a.split("::")[-1]), e2):
+                                    good, why = False, "slice end `%s` is not start + unsigned" % e2[:60]
+                            else:
+                                good, why = False, "slice [%s .. %s] is not covered by an established length fact" % (a[:30], e2[:50])
+                        else:
+                            good, why = False, "range shape not covered"
+                    if not good:
+                        break
+                inst.site(b, loc, "%s %s" % (obl[0], (obl[2] if obl[0] == "idx" else show(obl[2]))[:60]), {"discharged": good})
+                if not good:
+                    inst.violation(b.path, "%s %s" % (obl[0], norm_vars(obl[2] if obl[0] == "idx" else show(obl[2]))[:70]),
+                                   "a frame reader indexes its input out of range for some input length: " + why, at=b.span_at(loc))
+    cx.extra["parser_index_obligations"] = nobl
+
+
+# =================================================================================================
+# C03.X index inventory outside the parser
+
+
+def _ctor_fields(R, fn, adt):
+    b = R.body(fn)
+    for loc, s2 in b.assigns():
+        rv = s2["rv"]
+        if rv["k"] == "agg" and rv.get("adt", "").endswith(adt):
+            return {n: show(b.operand_expr(o)) for n, o in zip(rv["fields"], rv["ops"])}
+    return {}
+
+
+def _len_expr(v):
+    """symbolic length of a collection built by a constructor expression"""
+    m = re.fullmatch(r"Vec::into_boxed_slice\(Iterator::collect\(Iterator::map\(Range\{0,(.*)\},closure:.*\)\)\)", v)
+    if m:
+        return m.group(1)
+    m = re.fullmatch(r"Vec::into_boxed_slice\(vec::from_elem\([^,]+,(.*)\)\)", v)
+    if m:
+        return m.group(1)
+    return None
+
+
+def check_index_inventory(cx, iid="C03.X"):
+    R = cx.R
+    roots = [p for p in R.fns if re.search(r"(client::Client|server::Server|server::remote_client::RemoteClient)::[a-z_]+$", p) and R.fns[p].get("vis") == "Public"]
+    reach = R.reachable_from(roots)
+    ctors = {
+        "PacketReceiver": _ctor_fields(R, "PacketReceiver::new", "PacketReceiver"),
+        "PacketSender": _ctor_fields(R, "PacketSender::new", "PacketSender"),
+        "AssemblyWindow": _ctor_fields(R, "assembly_window::AssemblyWindow::new", "AssemblyWindow"),
+        "PendingPacket": _ctor_fields(R, "PendingPacket::new", "PendingPacket"),
+        "FragmentBuffer": _ctor_fields(R, "FragmentBuffer::new", "FragmentBuffer"),
+    }
+    with cx.instance(iid, "T6 index inventory", "every array index outside the parser is in range by a recognised idiom (masked window index, /64 flag word, constant, u8 into 256) or a reviewed entry with linked checks", floor=80) as inst:
+        # window sizes are powers of two (mask = size - 1 is then a valid modulus)
+        for cn in ("MAX_PACKET_WINDOW_SIZE", "MAX_FRAME_WINDOW_SIZE"):
+            v = R.const_int(cn)
+            if v & (v - 1) or v == 0:
+                inst.violation(cn, "power of two", "%s = %d is not a power of two: `id & (size - 1)` is not a modulus" % (cn, v))
+        for b in R.all_bodies():
+            if b.path not in reach or b.path in [R.fn(p)["path"] for p in PARSERS]:
                 continue
-            # every indexing site is dominated by *some* length test on arg1
-            cx.guard(inst, b, idx, [[r"(eq|le|lt)\(.*\[T\]::len\(arg1\).*\)"], [r"(eq|le|lt)\(\[T\]::len\(arg1\),.*\)"]],
-                     construct="indexing in " + name, why="a reader indexes its input before testing its length")
+            owner = b.fn.get("self_ty", "").split("::")[-1]
+            cf = ctors.get(owner, {})
+            for bb in sorted(b.reachable):
+                t = b.term(bb)
+                if not (t["k"] == "assert" and t["msg"] == "BoundsCheck"):
+                    continue
+                loc = Loc(bb, len(b.stmts(bb)))
+                idx = show(b.operand_expr(t["index"]))
+                ln = show(b.operand_expr(t["len"]))
+                construct = norm_vars("index %s into %s" % (idx[:50], ln[:40]))
+                status = None
+                why = ""
+                m_arr = re.fullmatch(r"ptrmetadata\(arg1\.(\w+)\)", ln)
+                if re.fullmatch(r"\d+", ln):
+                    n = int(ln)
+                    if re.fullmatch(r"\d+", idx):
+                        status = "const" if int(idx) < n else None
+                        why = "constant index %s >= length %d" % (idx, n)
+                    elif re.fullmatch(r"sub\(\[T\]::len\(Box::new\((array|repeat).*\)\),(\d)\)", idx):
+                        c = int(idx[-2])
+                        status = "literal-tail" if 1 <= c <= n else None
+                    elif n == 256 and re.fullmatch(r"cast<usize>\(bitxor\(.*cast<u8>\(.*\)\)\)|cast<usize>\(.*u8.*\)", idx) and "u8" in idx:
+                        status = "u8-into-256"
+                    elif b.path.endswith("LossIntervalQueue::compute_loss_rate") or b.path.endswith("LossIntervalQueue::reset"):
+                        status = _lk_weights(cx, inst, b, n)
+                        why = "WEIGHTS index not bounded by the truncate() length"
+                elif m_arr and cf:
+                    arr = m_arr.group(1)
+                    alen = _len_expr(cf.get(arr, ""))
+                    mm = re.fullmatch(r"cast<usize>\(bitand\((?:arg1\.(\w+),(.*)|(.*),arg1\.(\w+))\)\)", idx)
+                    mf = re.fullmatch(r"div\(cast<usize>\(bitand\((?:arg1\.(\w+),(.*)|(.*),arg1\.(\w+))\)\),64\)", idx)
+                    mboth = re.fullmatch(r"(?:div\()?cast<usize>\(bitand\((.*)\)\)(?:,64\))?", idx)
+                    masks = []
+                    if mboth:
+                        from mirlib import _split2
+                        try:
+                            for side in _split2(mboth.group(1)):
+                                mfld = re.fullmatch(r"arg1\.(\w+)", side)
+                                if mfld and re.fullmatch(r"sub\(.*,1\)", cf.get(mfld.group(1), "")):
+                                    masks.append(mfld.group(1))
+                        except ValueError:
+                            pass
+                    if mm:
+                        if alen is not None and any(cf.get(mk) == "sub(%s,1)" % alen for mk in masks):
+                            status = "masked"
+                        else:
+                            why = "array `%s` has length `%s` but the index is not masked with a field initialised to length - 1 (%s)" % (arr, alen, {mk: cf.get(mk) for mk in masks})
+                    elif mf:
+                        ok_f = False
+                        for mk in masks:
+                            m2 = re.fullmatch(r"sub\((.*),1\)", cf.get(mk, ""))
+                            if m2 and alen == "div(add(63,cast<usize>(%s)),64)" % m2.group(1):
+                                ok_f = True
+                        if ok_f:
+                            status = "flag-word"
+                        else:
+                            why = "flag array `%s` has length `%s`, index is (id & mask)/64 with masks %s" % (arr, alen, {mk: cf.get(mk) for mk in masks})
+                    elif arr == "channels" and alen == "CHANNEL_COUNT":
+                        status, why = _lk_channel_index(cx, inst, b, loc, idx)
+                    elif owner == "AssemblyWindow" and arr == "window" and idx == "arg2":
+                        status, why = _lk_assembly_index(cx, inst, b, alen)
+                    elif owner == "PendingPacket" and arr == "ack_flags":
+                        status, why = _lk_ack_flags(cx, inst, b, idx, alen, cf)
+                    elif owner == "FragmentBuffer" and arr == "fragment_bitfields" and idx == "div(arg2,64)" and alen == "div(add(63,arg1),64)":
+                        status = "reviewed: fragment idx < num_fragments (C03.B belief table: validated fragment id, equal last id)"
+                rec = inst.site(b, loc, construct, {"status": status})
+                if not status:
+                    inst.violation(b.path, construct, "array index reachable from an entry point is not proved in range by any recognised idiom or reviewed entry: " + (why or "unrecognised shape"), at=b.span_at(loc))
+
+
+def _lk_weights(cx, inst, b, n):
+    """WEIGHTS[i] in compute_loss_rate: i < entries.len() - 1 <= truncate length - 1 <= len(WEIGHTS)"""
+    R = cx.R
+    pn = R.body("LossIntervalQueue::push_nack")
+    tr = [int(re.search(r",(\d+)\)$", show(pn.call_expr(t))).group(1)) for l, t in pn.calls("VecDeque::truncate")]
+    if not tr or max(tr) - 1 > n:
+        return None
+    return "reviewed: loss intervals truncated to %d, WEIGHTS has %d entries" % (max(tr), n)
+
+
+def _lk_channel_index(cx, inst, b, loc, idx):
+    R = cx.R
+    if b.path.endswith("PacketReceiver::handle_datagram"):
+        good, _ = dnf_holds(cx.fa(b).at(loc), [[r"packet_receiver::datagram_is_valid\(arg2\)"]])
+        return ("validated: datagram_is_valid" if good else None), "channels[channel_id] is indexed without datagram_is_valid"
+    if b.path.endswith("PacketReceiver::receive") or b.path.endswith("PacketReceiver::try_unset_channel_base_id"):
+        # the index is a stored channel id: stored only from validated packets
+        hd = R.body("PacketReceiver::handle_datagram")
+        ok = True
+        for l, s2 in hd.assigns():
+            rv = s2["rv"]
+            if rv["k"] == "agg" and rv.get("adt", "").endswith("ChannelAdvEntry"):
+                g, _ = dnf_holds(cx.fa(hd).at(l), [[r"packet_receiver::datagram_is_valid\(arg2\)"]])
+                ok &= g
+        return ("stored channel id (written only under datagram_is_valid)" if ok else None), "channel ids are stored without validation"
+    if b.path.endswith("PacketReceiver::set_channel_base_id"):
+        callers = [ob.path.split("::")[-1] for ob in R.all_bodies() if call_sites(ob, "PacketReceiver::set_channel_base_id")]
+        return ("reviewed: called from %s with a stored channel id" % callers if callers == ["receive"] else None), "new caller of set_channel_base_id"
+    if "packet_sender::PacketSender::" in b.path:
+        # sender side: channel ids come from send(), which asserts channel_id < CHANNEL_COUNT
+        ok = True
+        for fn in ("client::Client::send", "server::remote_client::RemoteClient::send"):
+            sb = R.body(fn)
+            sinks = call_sites(sb, "HalfConnection::send") + call_sites(sb, "Vec::push", "initial_sends")
+            for l, lab in sinks:
+                g, _ = dnf_holds(cx.fa(sb).at(l), [[r"lt\(arg3,CHANNEL_COUNT\)"], [r"lt\(cast<usize>\(arg3\),CHANNEL_COUNT\)"]])
+                ok &= g
+        return ("API contract: send() tests channel_id < CHANNEL_COUNT before queueing" if ok else None), "send() queues a packet without testing channel_id < CHANNEL_COUNT"
+    return None, "unlisted channels[] index"
+
+
+def _lk_assembly_index(cx, inst, b, alen):
+    R = cx.R
+    hd = R.body("PacketReceiver::handle_datagram")
+    aw = R.body("PacketReceiver::advance_window")
+    okc = alen == "MAX_PACKET_WINDOW_SIZE"
+    for ob, callee in ((hd, "AssemblyWindow::try_add"), (aw, "AssemblyWindow::clear")):
+        for l, t in ob.calls(callee):
+            a = show(ob.operand_expr(t["args"][1]))
+            if not re.fullmatch(r"cast<usize>\(bitand\((arg1\.receive_window_mask,.*|.*,arg1\.receive_window_mask)\)\)", a):
+                okc = False
+    return ("reviewed: callers pass id & receive_window_mask, window_size <= MAX_PACKET_WINDOW_SIZE" if okc else None), "AssemblyWindow slots are indexed with an unmasked value or the table is smaller than the window"
+
+
+def _lk_ack_flags(cx, inst, b, idx, alen, cf):
+    if idx != "cast<usize>(div(arg2,64))":
+        return None, "ack_flags index shape"
+    if not (alen or "").startswith("div(add(63,"):
+        return None, "ack_flags length shape"
+    return "reviewed: fragment ids come from 0..=last_fragment_id (emit_data_frames range) and ack_flags has ceil((last+1)/64) words", ""
 
 
 def run(cx):
@@ -1139,6 +1452,7 @@ def run(cx):
     check_beliefs(cx)
     check_validators(cx)
     check_parser(cx)
+    check_index_inventory(cx)
 
 
 SELFTEST = [
@@ -1153,6 +1467,18 @@ SELFTEST = [
     {"name": "drop the is_valid guard in PacketSender::acknowledge",
      "edits": [{"file": "src/half_connection/packet_sender.rs", "old": "        if !packet_id::is_valid(receiver_base_id) {\n            return;\n        }\n", "new": ""}],
      "expect": ["C03.L"]},
+    {"name": "Frame::read accepts 4-byte inputs",
+     "edits": [{"file": "src/frame/serial/mod.rs", "old": "if frame_bytes.len() < 5 {", "new": "if frame_bytes.len() < 4 {"}],
+     "expect": ["C03.I"]},
+    {"name": "sync reader accepts short payloads",
+     "edits": [{"file": "src/frame/serial/mod.rs", "old": "    if data.len() != SYNC_FRAME_PAYLOAD_SIZE {\n        return None;\n    }", "new": "    if data.len() > SYNC_FRAME_PAYLOAD_SIZE {\n        return None;\n    }"}],
+     "expect": ["C03.I"]},
+    {"name": "receive window mask off by one",
+     "edits": [{"file": "src/half_connection/packet_receiver/mod.rs", "old": "receive_window_mask: window_size - 1,", "new": "receive_window_mask: window_size,"}],
+     "expect": ["C03.X"]},
+    {"name": "keep ten loss intervals",
+     "edits": [{"file": "src/half_connection/loss_rate.rs", "old": "self.entries.truncate(9);", "new": "self.entries.truncate(10);"}],
+     "expect": ["C03.X"]},
     {"name": "benign: rename locals in resynchronize", "edits": [{"file": "src/half_connection/packet_receiver/mod.rs", "old": "let mut sequence_id = base_id;\n\n        while sequence_id != sender_next_id {", "new": "let mut sequence_id = base_id;\n        let _unused_rename_probe = 0;\n\n        while sequence_id != sender_next_id {"}],
      "expect": []},
 ]
